@@ -29,6 +29,8 @@ FAMILIES = {
 DELETERS = {"os.remove", "os.unlink", "os.rmdir", "os.removedirs", "shutil.rmtree", "shutil.move", "os.rename",
             "os.replace", "os.truncate", "send2trash.send2trash"}
 DELETER_METHODS = {"unlink", "rmdir", "rmtree"}
+LOSSY_STR_METHODS = {"replace", "lower", "upper", "casefold", "title", "capitalize", "swapcase", "strip", "lstrip", "rstrip", "split",
+                     "rsplit", "partition", "rpartition", "translate", "encode", "zfill", "expandtabs", "center", "ljust", "rjust"}
 
 
 # ------------------------------------------------------------------------------------------ small helpers
@@ -377,6 +379,41 @@ def rule_R3(ctx, repo):
             ctx.check(used, "R3", c, "key depends on the %s" % ROLE_TEXT[role],
                       "the key does not depend on the %s: records that differ only in it collide" % ROLE_TEXT[role],
                       ctx.loc(kcls.module, keyfn))
+            if used:
+                faithful, lossy, unknown = 0, [], []
+                for r in rets:
+                    rv = S.resolve_at(keyfn, r.value, r)
+                    pm = S.parent_map(rv)
+                    for n in ast.walk(rv):
+                        if not (isinstance(n, ast.Name) and n.id == pname):
+                            continue
+                        par = pm.get(id(n))
+                        if isinstance(par, ast.Attribute):
+                            (lossy if par.attr in LOSSY_STR_METHODS else unknown).append("%s.%s(...)" % (pname, par.attr))
+                        elif isinstance(par, ast.Subscript) and par.value is n:
+                            lossy.append("%s[...]" % pname)
+                        elif isinstance(par, ast.Call) and n in par.args:
+                            d = dotted(par.func)
+                            sym = repo.resolve_expr(kcls.module, par.func) if d else None
+                            full = sym.dotted if sym is not None else d
+                            if full in ("os.path.join", "posixpath.join", "str", "builtins.str", "pathlib.Path", "os.fspath") or d == "str":
+                                faithful += 1
+                            elif full in ("os.path.basename", "os.path.dirname", "os.path.normpath", "hash", "len", "os.path.splitext"):
+                                lossy.append("%s(%s)" % (full, pname))
+                            else:
+                                unknown.append("%s(%s)" % (full, pname))
+                        else:
+                            faithful += 1
+                cc = "%s._generate_key:faithful:%s" % (cname, role)
+                if faithful:
+                    ctx.ok("R3", cc, "the %s enters the key unchanged" % ROLE_TEXT[role], ctx.loc(kcls.module, keyfn))
+                elif lossy:
+                    ctx.violation("R3", cc, "the %s enters the key only through %s, which maps different names to the same text: the "
+                                  "records of two %ss collide (one is taken for the other's, or overwrites it)"
+                                  % (ROLE_TEXT[role], ", ".join(sorted(set(lossy))), ROLE_TEXT[role].split()[0].replace("strategy", "strategie")), ctx.loc(kcls.module, keyfn))
+                else:
+                    ctx.undecided("R3", cc, "the %s enters the key through %s" % (ROLE_TEXT[role], ", ".join(sorted(set(unknown)))),
+                                  ctx.loc(kcls.module, keyfn))
         for fam, members in FAMILIES.items():
             tpls = {}
             for m in members:
@@ -760,11 +797,24 @@ def analyse_iter(ctx, repo):
         start_ok = not start or (isinstance(getattr(start[0], "value", start[0]), ast.Constant)
                                  and getattr(start[0], "value", start[0]).value == 0)
         data_e, ds_e = elts[by_role["data"]], elts[by_role["dataset"]]
+        while isinstance(sp, ast.Call) and isinstance(sp.func, ast.Name) and sp.func.id in ("list", "tuple") and len(sp.args) == 1:
+            sp = sp.args[0]
+        if isinstance(sp, ast.Subscript) and astq.is_self_attr(sp.value):
+            # (H2) folds memoised on the instance: the key must determine everything cv.split depends on (the data and y)
+            key = astq.canon(sp.slice)
+            coarse = ".shape" in key or "len(" in key or isinstance(sp.slice, ast.Constant)
+            if coarse:
+                ctx.violation("R4", c, "folds are read from the per-instance container self.%s keyed by %s: the folds computed for one "
+                              "data set are reused for every later data set (and run) with the same key although cv.split depends on the "
+                              "rows and on y -- history: two data sets with the same number of rows" % (
+                                  sp.value.attr, key.replace("ITER__(zip(self.tasks, self.datasets))[1]", "dataset")), loc)
+                ok = "reported"
         if isinstance(sp, ast.Call) and isinstance(sp.func, ast.Attribute) and sp.func.attr == "split" \
                 and astq.is_self_attr(sp.func.value) and ident.get(sp.func.value.attr) == "cv" and sp.args:
             ok = (astq.canon(sp.args[0]) == astq.canon(data_e) and astq.canon(data_e.func.value) == astq.canon(ds_e) and start_ok)
-    ctx.check(ok, "R4", c, "folds = enumerate(self.cv.split(data of this dataset)), numbered from 0",
-              "folds are not enumerate(self.cv.split(<loaded data of the yielded dataset>)) numbered from 0", loc)
+    if ok != "reported":
+        ctx.check(ok, "R4", c, "folds = enumerate(self.cv.split(data of this dataset)), numbered from 0",
+                  "folds are not enumerate(self.cv.split(<loaded data of the yielded dataset>)) numbered from 0", loc)
     c = "Orchestrator._iter:tuple"
     got = tuple(roles[i] for i in sorted(roles))
     ctx.check(None if any(r.startswith("?") for r in got) else set(got) == set(want) and len(got) == len(want), "R4", c,
@@ -1608,6 +1658,108 @@ def rule_presplit(ctx, repo):
                   "not by the labels that define the pre-split" % (labels, part, list(got.data), part, want), loc)
 
 
+def rule_splitters_stateless(ctx, repo):
+    """R4 (H1/H3): the fold generators are functions of their configuration and the data: ``split`` / ``get_n_splits`` must
+    not overwrite what the constructor stored -- otherwise the second call (next data set, next strategy, resumed run)
+    produces other folds than the first."""
+    for cname in ("PresplitFilesCV", "SingleSplit"):
+        cls = repo.cls(SPLITMOD + ":" + cname)
+        init = cls.methods.get("__init__")
+        config = {a for a, _, _ in astq.self_attr_stores(init)} if init else set()
+        for mname in ("split", "get_n_splits"):
+            fn = cls.methods.get(mname)
+            if fn is None:
+                continue
+            c = "%s.%s:stateless" % (cname, mname)
+            loc = ctx.loc(cls.module, fn)
+            stores = astq.self_attr_stores(fn) if not cls.is_static(mname) else []
+            inplace = [n for n in astq.walk_no_nested(fn) if isinstance(n, ast.Subscript) and isinstance(n.ctx, (ast.Store, ast.Del))
+                       and astq.is_self_attr(n.value)]
+            bad = sorted({a for a, _, _ in stores if a in config})
+            other = sorted({a for a, _, _ in stores if a not in config} | {n.value.attr for n in inplace})
+            if bad:
+                st = [x for x in stores if x[0] == bad[0]][0]
+                ctx.violation("R4", c, "%s.%s overwrites self.%s, which the constructor set (%s): the configuration of the fold generator "
+                              "changes with the first call, so calling it again (next strategy / data set, or a resumed run) yields other "
+                              "folds -- history: split twice on the same object" % (
+                                  cname, mname, bad[0], astq.canon(st[1])[:60] if st[1] is not None else "in place"), ctx.loc(cls.module, st[2]))
+            elif other:
+                ctx.undecided("R4", c, "%s.%s keeps state in self.%s across calls" % (cname, mname, ", self.".join(other)), loc)
+            else:
+                ctx.ok("R4", c, "no attribute of the fold generator is written while splitting", loc)
+
+
+class _Bound:
+    def __init__(self, inst, module, fn):
+        self.inst, self.module, self.fn = inst, module, fn
+
+    def m_call(self, interp, args, kwargs, node):
+        return interp.call_function(self.module, self.fn, [self.inst] + list(args), kwargs, 1)
+
+
+class _Instance(_Store):
+    """Instance of a repo class for the token interpreter: stored attributes, properties and methods of its MRO."""
+
+    def __init__(self, repo, cls, attrs):
+        _Store.__init__(self, attrs)
+        self.repo, self.cls = repo, cls
+
+    def m_getattr(self, interp, attr):
+        if attr in self.attrs:
+            return self.attrs[attr]
+        for k in self.repo.mro(self.cls):
+            if isinstance(k, str):
+                continue
+            g = k.properties.get(attr, {}).get("getter")
+            if g is not None:
+                return interp.call_function(k.module, g, [self], {}, 1)
+            if attr in k.methods:
+                return _Bound(self, k.module, k.methods[attr])
+        from ._c18_mini import Undecided as U
+        raise U("%s object has no modelled attribute %r" % (self.cls.name, attr))
+
+    def m_isinstance(self, interp, c):
+        name = getattr(c, "name", "")
+        return any((not isinstance(k, str)) and name.split(".")[-1] == k.name for k in self.repo.mro(self.cls))
+
+
+def rule_default_features(ctx, repo):
+    """R4: BaseTask.set_metadata is interpreted for a task without an explicit feature list: the default features must be
+    the data's columns without the target, *in the data's column order* (what _fit / predict hand the estimator)."""
+    from ._c18_mini import Interp, PyRaise, Undecided as U
+    from . import _c18_models as M
+    TASKS = "sktime/benchmarking/tasks.py"
+    cls = repo.cls(TASKS + ":TSCTask")
+    hit = repo.lookup_method(cls, "set_metadata")
+    c = "BaseTask.set_metadata:default-features"
+    if hit is None:
+        ctx.undecided("R4", c, "set_metadata missing", TASKS)
+        return
+    kcls, fn = hit
+    loc = ctx.loc(kcls.module, fn)
+    cols = ["dim_b", "target", "dim_a", "dim_c"]  # deliberately not in lexicographic order, target in the middle
+    data = M.FrameV({k: ["%s%d" % (k, i) for i in range(3)] for k in cols})
+    task = _Instance(repo, cls, {"_target": "target", "_features": None, "_metadata": None})
+    try:
+        Interp(repo, M.make_externals(M.VFS()), M.to_float, M.str_hook).call_function(kcls.module, fn, [task, data])
+    except U as e:
+        ctx.undecided("R4", c, str(e), loc)
+        return
+    except PyRaise as e:
+        ctx.violation("R4", c, "set_metadata raises %s for a task without explicit features" % (e.exc,), loc)
+        return
+    got = task.attrs.get("_features")
+    got = list(got.labels) if isinstance(got, M.IndexV) else (list(got) if isinstance(got, (list, tuple)) else got)
+    want = [k for k in cols if k != "target"]
+    if got == want:
+        ctx.ok("R4", c, "default features = data columns without the target, in data order", loc)
+    elif isinstance(got, list) and sorted(got) == sorted(want):
+        ctx.violation("R4", c, "for data columns %s the default features are %s: the estimator is fitted and asked to predict on "
+                      "column-permuted data (expected %s, the data's own order)" % (cols, got, want), loc)
+    else:
+        ctx.violation("R4", c, "for data columns %s and target 'target' the default features are %s, expected %s" % (cols, got, want), loc)
+
+
 def selection_kind(expr, data_param):
     """How a strategy method selects the estimator's input columns from its ``data`` parameter."""
     m = S.match("H_D[H_E]", expr)
@@ -1695,7 +1847,9 @@ def run(ctx):
         rule_R5_rest(ctx, repo, flow, cons, reg_pos)
     rule_arity(ctx, repo, roles)
     rule_presplit(ctx, repo)
+    rule_splitters_stateless(ctx, repo)
     rule_feature_selection(ctx, repo)
+    rule_default_features(ctx, repo)
     rule_no_deletion(ctx, repo)
     ctx.floor("R1", 2)
     ctx.floor("R2", 11)
